@@ -137,7 +137,7 @@ def prove(prop, modules, thorough=False):
                 env = dict(os.environ, LEAN_PATH=os.path.join(LEAN, ".lake", "build", "lib", "lean"))
                 rc, out = run(["lean", audit], cwd=LEAN, timeout=1200, env=env)
                 seen = set()
-                for mm in re.finditer(r"'([^']+)' (depends on axioms: \[([^\]]*)\]|does not depend on any axioms)", out.replace("\n", " ")):
+                for mm in re.finditer(r"'(\S+)' (depends on axioms: \[([^\]]*)\]|does not depend on any axioms)", out.replace("\n", " ")):
                     axs = [a.strip() for a in (mm.group(3) or "").split(",") if a.strip()]
                     bad = [a for a in axs if a not in ALLOWED_AXIOMS]
                     seen.add(mm.group(1))
